@@ -399,35 +399,78 @@ def _mc(module, cfg, workers, expect="ok", coverage=True, timeout=1500):
     return res
 
 
+# Golden traces: recorded once from the unchanged tree and frozen here, so that the negative controls exercise the
+# trace specifications independently of the tree under test (a mutated tree must yield VIOLATION, not exit 2).
+# single: conv 3x3 SAME on 9x6x8, stripes of 2 rows;  cascade: conv 3x3 SAME -> conv 3x1 SAME on 12 rows, final stripe 2.
+GOLDEN_SINGLE = [json.loads(x) for x in r"""
+{"t":900001,"e":"Hdr","n":1,"ops":[{"cls":"conv","sp":false,"up":0,"pt":"SAME","i2":[],"h":2,"hin":4,"buf":0,"store":9,"ax":{"H":{"I":9,"ro":0,"rl":9,"wo":0,"O":9,"OT":9,"k":3,"d":1,"s":1,"ep":[0,0]},"W":{"I":6,"ro":0,"rl":6,"wo":0,"O":6,"OT":6,"k":3,"d":1,"s":1,"ep":[0,0]},"C":{"I":8,"ro":0,"rl":8,"wo":0,"O":8,"OT":8,"k":1,"d":1,"s":1,"ep":[0,0]}}}]}
+{"t":900001,"e":"S","q":0,"op":0,"first":true,"last":false,"H":[0,2,0,3,1,0],"W":[0,6,0,6,1,1],"C":[0,8,0,8,0,0],"b2":[],"rd":[],"wr":[]}
+{"t":900001,"e":"S","q":1,"op":0,"first":false,"last":false,"H":[2,4,1,5,0,0],"W":[0,6,0,6,1,1],"C":[0,8,0,8,0,0],"b2":[],"rd":[],"wr":[]}
+{"t":900001,"e":"S","q":2,"op":0,"first":false,"last":false,"H":[4,6,3,7,0,0],"W":[0,6,0,6,1,1],"C":[0,8,0,8,0,0],"b2":[],"rd":[],"wr":[]}
+{"t":900001,"e":"S","q":3,"op":0,"first":false,"last":false,"H":[6,8,5,9,0,0],"W":[0,6,0,6,1,1],"C":[0,8,0,8,0,0],"b2":[],"rd":[],"wr":[]}
+{"t":900001,"e":"S","q":4,"op":0,"first":false,"last":true,"H":[8,9,7,9,0,1],"W":[0,6,0,6,1,1],"C":[0,8,0,8,0,0],"b2":[],"rd":[],"wr":[]}
+{"t":900001,"e":"End"}
+""".strip().splitlines()]
+GOLDEN_CASCADE = [json.loads(x) for x in r"""
+{"t":900002,"e":"Hdr","n":2,"ops":[{"cls":"conv","sp":false,"up":0,"pt":"SAME","i2":[],"h":2,"hin":4,"buf":0,"store":12,"ax":{"H":{"I":12,"ro":0,"rl":12,"wo":0,"O":12,"OT":12,"k":3,"d":1,"s":1,"ep":[0,0]},"W":{"I":6,"ro":0,"rl":6,"wo":0,"O":6,"OT":6,"k":3,"d":1,"s":1,"ep":[0,0]},"C":{"I":8,"ro":0,"rl":8,"wo":0,"O":8,"OT":8,"k":1,"d":1,"s":1,"ep":[0,0]}}},{"cls":"conv","sp":false,"up":0,"pt":"SAME","i2":[],"h":2,"hin":4,"buf":8,"store":8,"ax":{"H":{"I":12,"ro":0,"rl":12,"wo":0,"O":12,"OT":12,"k":3,"d":1,"s":1,"ep":[0,0]},"W":{"I":6,"ro":0,"rl":6,"wo":0,"O":6,"OT":6,"k":1,"d":1,"s":1,"ep":[0,0]},"C":{"I":8,"ro":0,"rl":8,"wo":0,"O":8,"OT":8,"k":1,"d":1,"s":1,"ep":[0,0]}}}]}
+{"t":900002,"e":"S","q":0,"op":0,"first":true,"last":false,"H":[0,2,0,3,1,0],"W":[0,6,0,6,1,1],"C":[0,8,0,8,0,0],"b2":[],"rd":[],"wr":[0,2,-1]}
+{"t":900002,"e":"S","q":1,"op":0,"first":false,"last":false,"H":[2,4,1,5,0,0],"W":[0,6,0,6,1,1],"C":[0,8,0,8,0,0],"b2":[],"rd":[],"wr":[2,2,-1]}
+{"t":900002,"e":"S","q":2,"op":1,"first":true,"last":false,"H":[0,2,0,3,1,0],"W":[0,6,0,6,0,0],"C":[0,8,0,8,0,0],"b2":[],"rd":[0,3,-1],"wr":[]}
+{"t":900002,"e":"S","q":3,"op":0,"first":false,"last":false,"H":[4,6,3,7,0,0],"W":[0,6,0,6,1,1],"C":[0,8,0,8,0,0],"b2":[],"rd":[],"wr":[4,2,-1]}
+{"t":900002,"e":"S","q":4,"op":1,"first":false,"last":false,"H":[2,4,1,5,0,0],"W":[0,6,0,6,0,0],"C":[0,8,0,8,0,0],"b2":[],"rd":[1,4,-1],"wr":[]}
+{"t":900002,"e":"S","q":5,"op":0,"first":false,"last":false,"H":[6,8,5,9,0,0],"W":[0,6,0,6,1,1],"C":[0,8,0,8,0,0],"b2":[],"rd":[],"wr":[6,2,-1]}
+{"t":900002,"e":"S","q":6,"op":1,"first":false,"last":false,"H":[4,6,3,7,0,0],"W":[0,6,0,6,0,0],"C":[0,8,0,8,0,0],"b2":[],"rd":[3,4,-1],"wr":[]}
+{"t":900002,"e":"S","q":7,"op":0,"first":false,"last":false,"H":[8,10,7,11,0,0],"W":[0,6,0,6,1,1],"C":[0,8,0,8,0,0],"b2":[],"rd":[],"wr":[0,2,-1]}
+{"t":900002,"e":"S","q":8,"op":1,"first":false,"last":false,"H":[6,8,5,9,0,0],"W":[0,6,0,6,0,0],"C":[0,8,0,8,0,0],"b2":[],"rd":[5,3,0],"wr":[]}
+{"t":900002,"e":"S","q":9,"op":0,"first":false,"last":true,"H":[10,12,9,12,0,1],"W":[0,6,0,6,1,1],"C":[0,8,0,8,0,0],"b2":[],"rd":[],"wr":[2,2,-1]}
+{"t":900002,"e":"S","q":10,"op":1,"first":false,"last":false,"H":[8,10,7,11,0,0],"W":[0,6,0,6,0,0],"C":[0,8,0,8,0,0],"b2":[],"rd":[7,1,0],"wr":[]}
+{"t":900002,"e":"S","q":11,"op":1,"first":false,"last":true,"H":[10,12,9,12,0,1],"W":[0,6,0,6,0,0],"C":[0,8,0,8,0,0],"b2":[],"rd":[1,3,-1],"wr":[]}
+{"t":900002,"e":"End"}
+""".strip().splitlines()]
+
+
 def negative_controls(run):
-    """corrupted records and a shrunken buffer must be rejected by the trace specifications."""
-    base = {"id": 900001, "ifm": [9, 6, 8], "ops": [{"cls": "conv", "kh": 3, "kw": 3, "pad": "SAME", "oc": 8, "stripe": 2}]}
-    evs = drv.run_case(base)
+    """corrupted records must be rejected by the trace specifications (and the uncorrupted ones accepted)."""
+    evs = GOLDEN_SINGLE
     _, v0, _ = validate("StripesTrace", evs)
     if v0:
-        raise MachineryError("negative control baseline is not clean: %s" % v0[:3])
+        raise MachineryError("golden trace rejected by StripesTrace: %s" % v0[:3])
     bad_pad = json.loads(json.dumps(evs))
     bad_pad[1]["H"][4] += 1            # pad_top of the first stripe
     bad_box = json.loads(json.dumps(evs))
     bad_box[2]["H"][2] += 1            # IFM start of the second stripe shifted by a row
     bad_gap = json.loads(json.dumps(evs))
     del bad_gap[3]                     # one stripe missing
-    for name, tr, want in (("pad+1", bad_pad, "PadBefore"), ("ifm start+1", bad_box, "Aligned"), ("stripe dropped", bad_gap, "Partition")):
+    bad_left = json.loads(json.dumps(evs))
+    bad_left[2]["W"][4] = 0            # left padding dropped on a full-width stripe
+    for name, tr, want in (("pad+1", bad_pad, "PadBefore"), ("ifm start+1", bad_box, "Aligned"), ("stripe dropped", bad_gap, "Partition"),
+                           ("left pad dropped", bad_left, "PadBefore")):
         _, v, _ = validate("StripesTrace", tr)
         if not any(x[4] == want for x in v):
             raise MachineryError("negative control '%s' not rejected by StripesTrace (%s expected): %s" % (name, want, v[:4]))
-    casc = {"id": 900002, "shrink": 1, "ifm": [12, 6, 8], "ops": [{"cls": "conv", "kh": 3, "kw": 3, "pad": "SAME", "oc": 8},
-                                                                 {"cls": "conv", "kh": 3, "kw": 1, "pad": "SAME", "oc": 8, "stripe": 2}]}
-    _, v, _ = validate("CascadeTrace", drv.run_case(casc))
+    casc = GOLDEN_CASCADE
+    _, v, d = validate("CascadeTrace", casc)
+    if v or d:
+        raise MachineryError("golden cascade rejected by CascadeTrace: %s %s" % (v[:3], d[:3]))
+    short = json.loads(json.dumps(casc))          # the same events replayed into a buffer of (stripe input - 1) = 3 rows
+    short[0]["ops"][1]["store"] = 3
+    for e in short[1:]:
+        if e["e"] == "S":
+            for f, first, n in (("rd", e["H"][2], e["H"][3] - e["H"][2]), ("wr", e["H"][0], e["H"][1] - e["H"][0])):
+                if e[f]:
+                    h0 = min(n, 3 - first % 3)
+                    e[f] = [first % 3, h0, 0 if n > h0 else -1]
+    _, v, _ = validate("CascadeTrace", short)
     if not any(x[3] == "NoEarlyOverwrite" for x in v):
         raise MachineryError("negative control: buffer of (stripe input - 1) rows not rejected by CascadeTrace: %s" % v[:4])
-    ok = dict(casc, id=900003)
-    del ok["shrink"]
-    _, v, d = validate("CascadeTrace", drv.run_case(ok))
-    if v:
-        raise MachineryError("negative control baseline (cascade) is not clean: %s" % v[:3])
-    run.cov["negative_controls"] = ["pad+1 -> PadBefore", "ifm start+1 -> Aligned", "stripe dropped -> Partition",
-                                    "rolling buffer = stripe input - 1 rows -> NoEarlyOverwrite"]
+    early = json.loads(json.dumps(casc))          # a producer stripe removed: its consumer reads rows that do not exist yet
+    k = [i for i, e in enumerate(early) if e["e"] == "S" and e["op"] == 0][1]
+    del early[k]
+    _, v, _ = validate("CascadeTrace", early)
+    if not any(x[3] == "ReadBeforeProduced" for x in v):
+        raise MachineryError("negative control: dropped producer stripe not rejected by CascadeTrace: %s" % v[:4])
+    run.cov["negative_controls"] = ["pad+1 -> PadBefore", "ifm start+1 -> Aligned", "stripe dropped -> Partition", "left pad dropped -> PadBefore",
+                                    "rolling buffer = stripe input - 1 rows -> NoEarlyOverwrite", "producer stripe dropped -> ReadBeforeProduced"]
 
 
 def main(tier, only=None):
